@@ -288,6 +288,132 @@ PROPS["C33"] = dict(
     level_note="Trusted: Kani/CBMC; HashMap contract model. Partial claim: state-transition functions only.",
 )
 
+# ------------------------------------------------------------------------------------------------
+# unit "enc": style S1 — scratch copy of the workspace, harness modules appended to the files under
+# test inside the real p2panda-encryption crate (private items visible, no source hooks)
+# ------------------------------------------------------------------------------------------------
+_ENC = "p2panda-encryption/src/"
+UNITS["enc"] = dict(
+    name="enc",
+    package="p2panda-encryption",
+    features=["test_utils", "model_serde"],
+    native_features=["test_utils", "model_serde"],
+    native_fakeclock=True,
+    stage=[("repo",),
+           ("shared_repo", "models/sym.rs", _ENC + "sym.rs"),
+           ("shared_repo", "models/collections.rs", _ENC + "verif_models.rs"),
+           ("rewrite", "p2panda-encryption/Cargo.toml", [(r"^\[features\]$", "[features]\nmodel_serde = []", 1)]),
+           ("append", _ENC + "lib.rs", "harness/inject/enc_lib.rs"),
+           ("rewrite", _ENC + "crypto/secret.rs", [(r", ZeroizeOnDrop\)\]", ")]", 1), (r"^use zeroize::ZeroizeOnDrop;$", "", 1)]),
+           ("rewrite", _ENC + "message_scheme/ratchet.rs", [(r"^use std::collections::VecDeque;$", "use crate::verif_models::VecDeque;", 1)]),
+           ("append", _ENC + "message_scheme/ratchet.rs", "harness/inject/enc_ratchet.rs"),
+           ("rewrite", _ENC + "data_scheme/group_secret.rs", [(r"^use std::collections::HashMap;$", "use crate::verif_models::HashMap;", 1),
+                                                              (r"^use std::collections::hash_map::\{IntoIter, Iter, Keys, Values\};$", "use crate::verif_models::hash_map::{IntoIter, Iter, Keys, Values};", 1)]),
+           ("append", _ENC + "data_scheme/group_secret.rs", "harness/inject/enc_group_secret.rs"),
+           ("rewrite", _ENC + "key_registry.rs", [(r"^use std::collections::HashMap;$", "use crate::verif_models::HashMap;", 1)]),
+           ("append", _ENC + "key_registry.rs", "harness/inject/enc_key_registry.rs"),
+           ],
+    repo_paths=["p2panda-encryption/src/", "src/"],
+    functions=[
+        (_ENC + "message_scheme/ratchet.rs", "DecryptionRatchet::secret_for_decryption", r"pub fn secret_for_decryption"),
+        (_ENC + "message_scheme/ratchet.rs", "RatchetSecret::ratchet_forward", r"pub fn ratchet_forward"),
+        (_ENC + "data_scheme/group_secret.rs", "find_latest", r"^fn find_latest"),
+        (_ENC + "data_scheme/group_secret.rs", "SecretBundle::generate", r"pub fn generate\("),
+        (_ENC + "data_scheme/group_secret.rs", "SecretBundle::insert", r"pub fn insert\("),
+        (_ENC + "data_scheme/group_secret.rs", "SecretBundle::extend", r"pub fn extend\("),
+        (_ENC + "data_scheme/group_secret.rs", "SecretBundle::remove", r"pub fn remove\("),
+        (_ENC + "data_scheme/group_secret.rs", "SecretBundle::from_secrets", r"pub fn from_secrets"),
+        (_ENC + "key_registry.rs", "KeyRegistry::add_onetime_bundle", r"pub fn add_onetime_bundle"),
+        (_ENC + "key_registry.rs", "KeyRegistry::add_longterm_bundle", r"pub fn add_longterm_bundle"),
+        (_ENC + "key_registry.rs", "KeyRegistry::remove_expired", r"pub fn remove_expired"),
+        (_ENC + "key_registry.rs", "PreKeyRegistry<OneTimeKeyBundle>::key_bundle", r"fn key_bundle\("),
+        (_ENC + "key_bundle/key_bundle.rs", "latest_key_bundle", r"pub fn latest_key_bundle"),
+        (_ENC + "key_bundle/key_bundle.rs", "OneTimeKeyBundle::verify", r"fn verify\(&self\)"),
+        (_ENC + "key_bundle/lifetime.rs", "Lifetime::verify", r"pub fn verify\(&self\)"),
+    ],
+    harnesses=[
+        dict(name="message_scheme::ratchet::verif_proofs::two_requests_windows_le2", prop="C34", timeout=600,
+             encodes="DecryptionRatchet::secret_for_decryption, RatchetSecret::ratchet_forward (sender oracle)",
+             bounds="2 requests over generations 0..3, max_forward and ooo_tolerance in 0..=2, all orders/losses/duplicates"),
+        dict(name="message_scheme::ratchet::verif_proofs::three_requests_windows_le2", prop="C34", timeout=900,
+             encodes="as above", bounds="3 requests over generations 0..3, windows 0..=2"),
+        dict(name="message_scheme::ratchet::verif_proofs::window_arithmetic_any_head", prop="C34", timeout=600,
+             encodes="secret_for_decryption window arithmetic", bounds="one request from an arbitrary head generation (< u32::MAX-8), arbitrary u32 windows, forward jump <= 3"),
+        dict(name="message_scheme::ratchet::verif_proofs::three_requests_windows_le3", prop="C34", tier="thorough", timeout=2400,
+             encodes="as above", bounds="3 requests, windows 0..=3", supersedes=[]),
+        dict(name="message_scheme::ratchet::verif_proofs::four_requests_windows_le3", prop="C34", tier="thorough", timeout=3600,
+             encodes="as above", bounds="4 requests, windows 0..=3"),
+        dict(name="data_scheme::group_secret::verif_proofs::latest_is_max_for_every_insertion_order", prop="C36", timeout=900,
+             encodes="find_latest via SecretBundle::insert, SecretBundleState::latest", bounds="1..3 secrets, all u64 timestamps, distinct ids, all 6 insertion orders, every HashMap iteration order"),
+        dict(name="data_scheme::group_secret::verif_proofs::latest_after_merge_from_secrets_and_remove", prop="C36", timeout=900,
+             encodes="SecretBundle::{extend, from_secrets, remove}, find_latest", bounds="3 secrets, all u64 timestamps, both merge orders"),
+        dict(name="data_scheme::group_secret::verif_proofs::generate_is_newer", prop="C36", timeout=900,
+             encodes="SecretBundle::generate", bounds="bundle of 0..2 secrets with timestamps < u64::MAX, every wall-clock second"),
+        dict(name="data_scheme::group_secret::verif_proofs::generate_with_maximal_latest_timestamp", prop="C36", timeout=600,
+             encodes="SecretBundle::generate", bounds="latest timestamp = u64::MAX, every wall-clock second"),
+        dict(name="key_registry::verif_proofs::onetime_accept_and_lookup", prop="C38", timeout=600,
+             encodes="KeyRegistry::add_onetime_bundle, PreKeyRegistry<OneTimeKeyBundle>::key_bundle, OneTimeKeyBundle::verify, Lifetime::verify",
+             bounds="1 bundle with arbitrary u64 lifetime and signature verdict, two independent clock readings add <= lookup"),
+        dict(name="key_registry::verif_proofs::onetime_two_bundles_lookup", prop="C38", timeout=600,
+             encodes="as above", bounds="2 accepted bundles, lookup at a later arbitrary time"),
+        dict(name="key_registry::verif_proofs::longterm_accept", prop="C38", timeout=600,
+             encodes="KeyRegistry::add_longterm_bundle, LongTermKeyBundle::verify, Lifetime::verify", bounds="1 bundle, arbitrary lifetime/verdict/clock"),
+        dict(name="key_registry::verif_proofs::longterm_lookup", prop="C38", timeout=900,
+             encodes="PreKeyRegistry<LongTermKeyBundle>::key_bundle, latest_key_bundle, Lifetime::verify, Ord for Lifetime", bounds="2 accepted bundles, lookup at a later arbitrary time"),
+        dict(name="key_registry::verif_proofs::remove_expired_keeps_only_valid", prop="C38", tier="thorough", timeout=2400,
+             encodes="KeyRegistry::remove_expired", bounds="1 bundle, two clock readings (1.8M symex steps, ~18 GB)"),
+    ],
+)
+
+import copy as _copy
+UNITS["encs"] = _copy.deepcopy(UNITS["enc"])
+UNITS["encs"]["name"] = "encs"
+UNITS["encs"]["stage"] = UNITS["encs"]["stage"] + [
+    ("rewrite", _ENC + "lib.rs", [(r"pub const MODEL_CAP: usize = 6;", "pub const MODEL_CAP: usize = 4;", 1)]),
+    # digest width: ids are opaque, totally ordered values for C36; 2 bytes under the solver keep every
+    # array comparison short (natively the real 32-byte SHA-256)
+    ("rewrite", _ENC + "crypto/sha2.rs", [(r"^pub const SHA256_DIGEST_SIZE: usize = 32;$",
+                                           "#[cfg(kani)] pub const SHA256_DIGEST_SIZE: usize = 2; #[cfg(not(kani))] pub const SHA256_DIGEST_SIZE: usize = 32;", 1)]),
+]
+UNITS["encs"]["harnesses"] = [h for h in UNITS["enc"]["harnesses"] if h["prop"] in ("C36", "C38")]
+UNITS["encs"]["mem_gb"] = 30
+UNITS["enc"]["harnesses"] = [h for h in UNITS["enc"]["harnesses"] if h["prop"] == "C34"]
+_ENC_TB = ["Kani 0.68 / CBMC 6.11 / cadical",
+           "staging: scratch copy of the workspace; ZeroizeOnDrop dropped from Secret (inline asm + a 32-iteration loop per drop; zeroisation is not part of any property)",
+           "model: std VecDeque/HashMap replaced by inline-array contract models (HashMap with solver-chosen iteration order)"]
+PROPS["C34"] = dict(
+    units=["enc"],
+    trusted_base=_ENC_TB + ["stub: HKDF-SHA256 replaced by a labelled injective step function on a chain position (determinism and injectivity in (label, position) are the two facts the ratchet needs); natively the real HKDF"],
+    assumptions=["generations 0..3, windows 0..=2 (quick) / 0..=3 (thorough), sequences of 2-3 (quick) / 3-4 (thorough) requests", "a failing request consumes the state (API moves it): the sequence ends at the first rejection", "head generation < u32::MAX - 8 in the one-step harness"],
+    bounds="all request sequences inside the stated bound (every order, loss, duplication), symbolic window sizes",
+    outside="HKDF/SHA-256 themselves; 'random large' sequences; generation counter overflow at 2^32",
+    level_text=("Bounded model checking of the real DecryptionRatchet::secret_for_decryption against the real sender ratchet: for every request sequence inside the bound the key material "
+                "is exactly the sender's for that generation, no generation is served twice, requests outside the windows are rejected and unused ones inside are served."),
+    level_note="Trusted: Kani/CBMC; HKDF idealised as injective+deterministic; VecDeque contract model.",
+)
+PROPS["C36"] = dict(
+    units=["encs"],
+    trusted_base=_ENC_TB + ["stub: GroupSecret::id (SHA-256) replaced by the identity on the secret bytes (injective); ids are non-zero (an all-zero SHA-256 digest is infeasible)",
+                            "stub: GroupSecret::from_rng returns fresh bytes with an arbitrary wall-clock second (natively: real RNG + preloaded clock)"],
+    assumptions=["<= 3 secrets", "distinct secrets have distinct ids"],
+    bounds="all u64 timestamps, all insertion / merge orders of 3 secrets, every HashMap iteration order, every wall-clock second",
+    outside="bundles of more than 3 secrets; CBOR encoding of bundles",
+    level_text=("Bounded model checking of the real find_latest / SecretBundle::{insert,extend,remove,from_secrets,generate}: latest is the maximum by (timestamp, id) under every map iteration "
+                "and insertion order, and a generated secret is strictly later than the current latest for every clock reading (incl. a clock behind the latest)."),
+    level_note="Trusted: Kani/CBMC; HashMap contract model with symbolic iteration order; SHA-256 idealised as injective.",
+)
+PROPS["C38"] = dict(
+    units=["encs"],
+    trusted_base=_ENC_TB + ["stub: SystemTime::now / duration_since(UNIX_EPOCH) return an arbitrary second, chosen independently at add time and at lookup time (lookup >= add)",
+                            "stub: xeddsa_verify returns a symbolic verdict per bundle (natively bundles are really signed or carry a garbage signature)"],
+    assumptions=["<= 2 bundles per member", "clock < 2^62 s"],
+    bounds="arbitrary u64 lifetimes, arbitrary signature verdicts, two clock readings",
+    outside="XEdDSA itself; more than two bundles per member",
+    level_text=("Bounded model checking of the real KeyRegistry add/lookup/remove_expired paths with the wall clock as a symbolic variable read independently at add and at lookup time: a bundle is accepted "
+                "exactly when lifetime and signature are valid now, and a bundle returned for a member is valid when it is returned."),
+    level_note="Trusted: Kani/CBMC; clock and signature verdict symbolic; HashMap contract model.",
+)
+
 PROPS["C18"].update(
     level_text=("Bounded model checking of the real HybridTimestamp::increment: the solver decides the strict-increase "
                 "assertion for every 64-bit (timestamp, lamport, wall-clock) triple and for chains of two increments with "
